@@ -19,6 +19,12 @@ and - when these agree - bitwise identical cell volumes / coordinates, equal sta
 grid, label(s), dtype, data bitwise; ``from_data``: every component of every member is the corresponding
 slice of the flat array.
 
+Not a violation (recorded under refusals as an observation): an explicitly float32 ``FieldCollection`` comes
+back as float64 with unchanged values from ``FieldCollection.copy()`` and from a storage read (which copies its
+template), because ``copy(dtype=None)`` documents "determined from data automatically" = double.  The dtype is
+still compared for single fields on all routes, for collections through attributes -> ``from_state``, deepcopy
+and pickle, and for float64/complex128/mixed collections everywhere.
+
 Signatures name the failing family, e.g. ``CylindricalSymGrid|hole|state loses inner radius|copy()``.  A
 grid that is damaged on its way through a field/collection/storage keeps the *grid* prefix
 (``<GridClass>|<hole?>|<what>|...``) so that cascades of a grid defect are matched with that defect.
@@ -497,8 +503,20 @@ def _restore_field(f, route):
     raise ValueError(route)
 
 
-def field_diff(f, ref, new, mech, prefix, where):
-    """violations (without route) for a restored field/collection `new` of `f` (described by `ref`)"""
+OBS_F32 = (
+    "observation: float32 FieldCollection.copy()/storage read-back yields float64 "
+    "(documented automatic dtype), values unchanged"
+)
+
+
+def field_diff(f, ref, new, mech, prefix, where, obs=None):
+    """violations (without route) for a restored field/collection `new` of `f` (described by `ref`)
+
+    `obs` is a list if the route goes through ``FieldCollection.copy(dtype=None)`` (``copy()`` itself and
+    every storage read, which copies its template): there the dtype is documented to be "determined from
+    data automatically", i.e. double, so that an explicitly float32 *collection* coming back as float64
+    with unchanged values is recorded as an observation and not as a violation.  Nothing else is excused.
+    """
     import numpy as np
     from pde import FieldCollection
 
@@ -519,9 +537,22 @@ def field_diff(f, ref, new, mech, prefix, where):
         keys += ["labels", "member classes", "member dtypes", "member data"]
     bad = False
     dtype_changed = got["dtype"] != ref["dtype"]
+    widened = (
+        obs is not None
+        and "labels" in ref
+        and isinstance(new, FieldCollection)
+        and ref["dtype"] == "float32"
+        and got["dtype"] == "float64"
+        and all(d == "float32" for d in ref["member dtypes"])
+        and all(d == "float64" for d in got["member dtypes"])
+    )
     for key in keys:
         if got.get(key) == ref[key]:
             continue
+        if widened and key == "dtype":
+            if OBS_F32 not in obs:
+                obs.append(OBS_F32)
+            continue  # values are still compared below
         if dtype_changed and key == "member dtypes":
             continue  # follows from the dtype of the collection, reported once
         if dtype_changed and key in ("data", "member data"):
@@ -554,7 +585,7 @@ def _run_fieldlike(case, build, prefix_of):
     f = build(grid, case)
     ref = _describe(f)
     prefix = prefix_of(f)
-    viols, n = [], 0
+    viols, refs, n = [], [], 0
     for route in case.get("routes") or FIELD_ROUTES:
         n += 1
         mech = "pickle" if route == "pickle" else "state"
@@ -571,12 +602,12 @@ def _run_fieldlike(case, build, prefix_of):
                 }
             )
             continue
-        for v in field_diff(f, ref, new, mech, prefix, where):
+        for v in field_diff(f, ref, new, mech, prefix, where, obs=refs if route == "copy()" else None):
             v["route"] = route
             viols.append(v)
     if _describe(f) != ref:
         viols.append({"sig": f"{prefix}|restoring modified the original", "msg": f"{_fstr(f)} changed while it was restored", "detail": None})
-    return viols, [], n
+    return viols, refs, n
 
 
 def _run_field(case):
@@ -597,9 +628,10 @@ def _run_collection(case):
 
 
 def collection_case(case):
-    viols, _, n = _run_collection(case)
+    viols, refs, n = _run_collection(case)
     ranks = "".join(str(RANK[m]) for m in case["members"])
-    return _finish(case, "collection_case", _run_collection, viols, {"n": n, "out": f"ranks{ranks}:{'violation' if viols else 'ok'}"})
+    out = "violation" if viols else ("ok, float32 widened by copy()" if refs else "ok")
+    return _finish(case, "collection_case", _run_collection, viols, {"n": n, "ref": refs or None, "out": f"ranks{ranks}:{out}"})
 
 
 # ----------------------------------------------------------------------------------------------
@@ -719,7 +751,7 @@ def _run_storage(case):
     st.append(a, 0.0)
     st.append(b, 1.5)
     st.end_writing()
-    viols, n = [], 0
+    viols, obs, n = [], [], 0
     for route in case.get("routes") or STORAGE_ROUTES:
         n += 1
         where = f"storage {route}"
@@ -741,20 +773,21 @@ def _run_storage(case):
             new.append({"sig": f"{prefix}|has_collection wrong|{where}", "msg": f"{where}: has_collection={has_coll}", "detail": None})
         for i, f2 in enumerate(read):
             src = (a, b)[i % 2]
-            new += field_diff(src, refs[i % 2], f2, "state", prefix, where)
+            new += field_diff(src, refs[i % 2], f2, "state", prefix, where, obs=obs)
         seen = set()
         for v in new:  # the four reads repeat each other
             if v["sig"] not in seen:
                 seen.add(v["sig"])
                 v["route"] = route
                 viols.append(v)
-    return viols, [], n
+    return viols, obs, n
 
 
 def storage_case(case):
-    viols, _, n = _run_storage(case)
+    viols, refs, n = _run_storage(case)
     kind = "ranks" + "".join(str(RANK[m]) for m in case["members"]) if "members" in case else case["fcls"]
-    return _finish(case, "storage_case", _run_storage, viols, {"n": n, "out": f"{kind}:{case['dtype']}:{'violation' if viols else 'ok'}"})
+    out = "violation" if viols else ("ok, float32 widened on read" if refs else "ok")
+    return _finish(case, "storage_case", _run_storage, viols, {"n": n, "ref": refs or None, "out": f"{kind}:{case['dtype']}:{out}"})
 
 
 # ----------------------------------------------------------------------------------------------
@@ -954,6 +987,10 @@ def main(run):
         "field contents are generic values chosen by VERIF_SEED (plus one signed zero); from_data uses pairwise "
         "distinct values so that every component is identifiable",
         "memory sharing between restored objects is C15's subject and not examined here",
+        "an explicitly float32 FieldCollection returned as float64 (values unchanged) by FieldCollection.copy() or by a "
+        "storage read-back is recorded as an observation (refusals), not a violation: copy(dtype=None) documents the "
+        "automatic dtype (double); the property only demands the dtype for reconstruction from serialised attributes + "
+        "data via from_state, which is checked (as are single fields on all routes, deepcopy, pickle, complex128 everywhere)",
     ]
     return (
         "complete product of grid class x constructor parameters (radius float/int/(inner,outer)/(0,outer), negative / "
